@@ -925,6 +925,7 @@ pub proof fn lemma_c05_execute_once(st: Seq<Raw>, calls: Seq<Call>, i: int, j: i
 pub open spec fn shows(r: ProposalResponse<Empty>, id: u64, p: Proposal, b: &BlockInfo) -> bool {
     r.id == id && r.status == spec_status(p, b) && r.msgs == p.msgs && r.expires == p.expires && r.proposer == p.proposer
     && r.title == p.title && r.description == p.description && r.deposit == p.deposit
+    && r.threshold == p.threshold.resp(p.total_weight)
 }
 @fn contracts/cw3-fixed-multisig/src/contract.rs map_proposal [closures: 1]
 @requires
